@@ -1,5 +1,6 @@
 (* C15/Proofs.v -- a pipeline delivers exactly the filter_map image of the prefix before the
-   fault, in order, pulls nothing after it, and blames the right side. *)
+   fault, in order, pulls nothing after it, and blames the right side.  Sources may hand over
+   several items per step (parsers) or one (iterators). *)
 From Sophia.C15 Require Import Model.
 
 Section P.
@@ -15,14 +16,22 @@ Proof.
   - destruct (m x); auto.
 Qed.
 
+Lemma feed_wrap chain (f : sink St) items st :
+  feed St (wrap St chain f) items st = feed_spec St chain f items st.
+Proof.
+  revert st; induction items as [|x r IH]; intros st; simpl; auto.
+  rewrite wrap_through. destruct (through chain x) as [y|]; simpl.
+  - destruct (f y st) as [st' [e|]]; auto.
+  - apply IH.
+Qed.
+
 (* refinement: the adapter stack is the two-line specification *)
 Theorem try_for_each_spec src chain (f : sink St) st :
   try_for_each St src chain f st = spec St src chain f st.
 Proof.
-  revert st; induction src as [|[x|e] rest IH]; intros st; simpl; auto.
-  rewrite wrap_through. destruct (through chain x) as [y|]; simpl.
-  - destruct (f y st) as [st' [e|]]; auto.
-  - apply IH.
+  revert st; induction src as [|[items oe] rest IH]; intros st; simpl; auto.
+  rewrite feed_wrap. destruct (feed_spec St chain f items st) as [st' [e|]]; auto.
+  destruct oe; auto.
 Qed.
 
 (* step-wise driving (try_for_some_item in a loop) is whole-stream driving *)
@@ -31,12 +40,12 @@ Theorem stepwise_is_try_for_each src chain (f : sink St) st fuel :
   stepwise St fuel src chain f st = try_for_each St src chain f st.
 Proof.
   revert src st; induction fuel as [|n IH]; intros src st H; [inversion H|].
-  destruct src as [|[x|e] rest]; simpl; auto.
-  destruct (wrap St chain f x st) as [st' [e|]]; auto.
-  apply IH. simpl in H. lia.
+  destruct src as [|[items oe] rest]; simpl; auto.
+  destruct (feed St (wrap St chain f) items st) as [st' [e|]]; auto.
+  destruct oe; auto. apply IH. simpl in H. lia.
 Qed.
 
-(* try_for_some_item pulls at most one element and never reorders *)
+(* try_for_some_item performs exactly one step of the source *)
 Theorem try_for_some_pulls_one src chain (f : sink St) st :
   let '(rest, _, o) := try_for_some St src chain f st in
   match src with
@@ -44,8 +53,8 @@ Theorem try_for_some_pulls_one src chain (f : sink St) st :
   | _ :: tl => rest = tl
   end.
 Proof.
-  destruct src as [|[x|e] rest]; simpl; auto.
-  destruct (wrap St chain f x st) as [st' [e|]]; auto.
+  destruct src as [|[items oe] rest]; simpl; auto.
+  destruct (feed St (wrap St chain f) items st) as [st' [e|]]; auto.
 Qed.
 End P.
 
@@ -59,53 +68,107 @@ Definition not_reached (fault : option (nat * err)) (n : nat) : Prop :=
 Lemma fm_app chain a b : fm chain (a ++ b) = fm chain a ++ fm chain b.
 Proof. unfold fm. apply flat_map_app. Qed.
 
-Lemma rec_prefix chain fault pre : forall st tail,
-  not_reached fault (length (st ++ fm chain pre)) ->
-  try_for_each _ (map inl pre ++ tail) chain (rec_sink fault) st =
-  try_for_each _ tail chain (rec_sink fault) (st ++ fm chain pre).
+(* a batch that the consumer survives *)
+Lemma feed_rec_ok chain fault items : forall st,
+  not_reached fault (length (st ++ fm chain items)) ->
+  feed_spec _ chain (rec_sink fault) items st = (st ++ fm chain items, None).
 Proof.
-  induction pre as [|x pre IH]; intros st tail H; simpl.
+  induction items as [|x r IH]; intros st H; simpl.
   - rewrite app_nil_r. reflexivity.
-  - rewrite wrap_through. unfold fm in *. simpl in *.
-    destruct (through chain x) as [y|]; simpl in *.
+  - unfold fm in *. simpl in *. destruct (through chain x) as [y|]; simpl in *.
     + assert (Hs : rec_sink fault y st = (st ++ [y], None)).
       { unfold rec_sink. destruct fault as [[j e]|]; auto.
         simpl in H. rewrite app_length in H. simpl in H.
         destruct (Nat.eqb_spec (length st) j); auto. lia. }
-      rewrite Hs. rewrite IH.
-      * rewrite <- app_assoc. reflexivity.
-      * rewrite <- app_assoc. exact H.
+      rewrite Hs. rewrite IH; rewrite <- app_assoc; [reflexivity | exact H].
     + apply IH. exact H.
 Qed.
 
-(* (a) source fault at position k = length pre: exactly the items before it were consumed,
-   nothing after it was pulled, the error is the source's, carrying the original value *)
-Theorem source_fault_prefix chain fault pre e post st :
-  not_reached fault (length (st ++ fm chain pre)) ->
-  try_for_each _ (map inl pre ++ inr e :: post) chain (rec_sink fault) st
-  = (post, st ++ fm chain pre, SourceError e).
-Proof. intros H. rewrite rec_prefix by exact H. reflexivity. Qed.
-
-(* (b) sink fault on the item y produced from x: everything before was consumed once and in
-   order, y is the last thing the consumer saw, nothing after x was pulled (post untouched,
-   whatever it contains), the error is the sink's, carrying the original value *)
-Theorem sink_fault_prefix chain pre x y post j e st :
+(* a batch in which the consumer fails on the item y produced from x *)
+Lemma feed_rec_fail chain pre x y post j e : forall st,
   through chain x = Some y ->
   length (st ++ fm chain pre) = j ->
-  try_for_each _ (map inl pre ++ inl x :: post) chain (rec_sink (Some (j, e))) st
-  = (post, st ++ fm chain pre ++ [y], SinkError e).
+  feed_spec _ chain (rec_sink (Some (j, e))) (pre ++ x :: post) st = (st ++ fm chain pre ++ [y], Some e).
 Proof.
-  intros Hx Hj. rewrite rec_prefix by (simpl; lia). simpl.
-  rewrite wrap_through, Hx. unfold rec_sink. rewrite Hj, Nat.eqb_refl.
-  rewrite <- app_assoc. reflexivity.
+  induction pre as [|z pre IH]; intros st Hx Hj; simpl.
+  - rewrite Hx. unfold rec_sink. unfold fm in Hj. simpl in Hj. rewrite app_nil_r in Hj.
+    rewrite Hj, Nat.eqb_refl. reflexivity.
+  - unfold fm in *. simpl in *. destruct (through chain z) as [w|]; simpl in *.
+    + destruct (Nat.eqb_spec (length st) j) as [Heq|Hne].
+      { rewrite app_length in Hj. simpl in Hj. lia. }
+      rewrite IH; auto; rewrite <- app_assoc; [reflexivity | exact Hj].
+    + apply IH; auto.
+Qed.
+
+Definition items_of (steps : list (list item)) : list item := concat steps.
+Definition clean (steps : list (list item)) : source := map (fun b => (b, None)) steps.
+
+Lemma rec_prefix chain fault steps : forall st tail,
+  not_reached fault (length (st ++ fm chain (items_of steps))) ->
+  try_for_each _ (clean steps ++ tail) chain (rec_sink fault) st =
+  try_for_each _ tail chain (rec_sink fault) (st ++ fm chain (items_of steps)).
+Proof.
+  induction steps as [|b steps IH]; intros st tail H; simpl.
+  - rewrite app_nil_r. reflexivity.
+  - unfold items_of in *. simpl in *. rewrite fm_app in H.
+    rewrite feed_wrap, feed_rec_ok.
+    + rewrite IH; rewrite <- app_assoc; [rewrite fm_app; reflexivity | exact H].
+    + destruct fault as [[j e]|]; simpl in *; auto. rewrite !app_length in *. lia.
+Qed.
+
+(* (a) source fault in step k (after that step's own items): exactly the items before it were
+   consumed, nothing after it was pulled, SourceError carries the original value *)
+Theorem source_fault_prefix chain fault steps last e post st :
+  not_reached fault (length (st ++ fm chain (items_of steps ++ last))) ->
+  try_for_each _ (clean steps ++ (last, Some e) :: post) chain (rec_sink fault) st
+  = (post, st ++ fm chain (items_of steps ++ last), SourceError e).
+Proof.
+  intros H. rewrite fm_app in *. rewrite rec_prefix.
+  - simpl. rewrite feed_wrap, feed_rec_ok.
+    + rewrite <- app_assoc. reflexivity.
+    + rewrite <- app_assoc. exact H.
+  - destruct fault as [[j e']|]; simpl in *; auto. rewrite !app_length in *. lia.
+Qed.
+
+(* (b) sink fault on the item y produced from x: everything before was consumed once and in
+   order, y is the last thing the consumer saw, the rest of the batch and every later step are
+   untouched (post, whatever it contains), SinkError carries the original value *)
+Theorem sink_fault_prefix chain steps pre x y rest_of_batch oe post j e st :
+  through chain x = Some y ->
+  length (st ++ fm chain (items_of steps ++ pre)) = j ->
+  try_for_each _ (clean steps ++ (pre ++ x :: rest_of_batch, oe) :: post) chain (rec_sink (Some (j, e))) st
+  = (post, st ++ fm chain (items_of steps ++ pre) ++ [y], SinkError e).
+Proof.
+  intros Hx Hj. rewrite fm_app in *. rewrite rec_prefix.
+  - simpl. rewrite feed_wrap. rewrite (feed_rec_fail chain pre x y rest_of_batch j e); auto.
+    + rewrite <- !app_assoc. reflexivity.
+    + rewrite <- app_assoc. exact Hj.
+  - simpl. rewrite !app_length in *. lia.
 Qed.
 
 (* (c) no fault: the whole filter_map image, in order, each once *)
-Theorem no_fault_all chain fault items st :
-  not_reached fault (length (st ++ fm chain items)) ->
-  try_for_each _ (map inl items) chain (rec_sink fault) st = ([], st ++ fm chain items, Done).
+Theorem no_fault_all chain fault steps st :
+  not_reached fault (length (st ++ fm chain (items_of steps))) ->
+  try_for_each _ (clean steps) chain (rec_sink fault) st = ([], st ++ fm chain (items_of steps), Done).
 Proof.
-  intros H. rewrite <- (app_nil_r (map inl items)). rewrite rec_prefix by exact H. reflexivity.
+  intros H. rewrite <- (app_nil_r (clean steps)). rewrite rec_prefix by exact H. reflexivity.
+Qed.
+
+(* the iterator-backed source is the one-item-per-step special case *)
+Theorem of_results_clean items : of_results (map inl items) = clean (map (fun x => [x]) items).
+Proof. unfold of_results, clean. rewrite !map_map. reflexivity. Qed.
+Lemma items_of_singletons items : items_of (map (fun x => [x]) items) = items.
+Proof. unfold items_of. induction items as [|x r IH]; simpl; congruence. Qed.
+
+Corollary iterator_source_fault chain fault pre e post st :
+  not_reached fault (length (st ++ fm chain pre)) ->
+  try_for_each _ (of_results (map inl pre ++ inr e :: post)) chain (rec_sink fault) st
+  = (of_results post, st ++ fm chain pre, SourceError e).
+Proof.
+  intros H. unfold of_results at 1. rewrite map_app. simpl.
+  fold (of_results (map inl pre)). fold (of_results post). rewrite of_results_clean.
+  pose proof (source_fault_prefix chain fault (map (fun x => [x]) pre) [] e (of_results post) st) as S.
+  rewrite items_of_singletons, app_nil_r in S. apply S. exact H.
 Qed.
 
 (* the chain as a whole is `filter_map`: order-preserving, each passing item exactly once *)
@@ -115,6 +178,41 @@ Lemma fm_filter p c l : fm (AFilter p :: c) l = fm c (filter p l).
 Proof. unfold fm. induction l as [|x l IH]; simpl in *; auto. destruct (p x); simpl; rewrite IH; auto. Qed.
 Lemma fm_map m c l : fm (AMap m :: c) l = fm c (map m l).
 Proof. unfold fm. induction l as [|x l IH]; simpl in *; auto. rewrite IH; auto. Qed.
+
+(* ---------- the iterator wrappers (into_iter of MapSource / FilterMapSource) ---------- *)
+Definition all_out (chain : list adapter) (src : source) : list (item + err) :=
+  flat_map (step_out chain) src.
+
+Lemma fill_spec chain src :
+  let '(src', b) := fill src chain in b ++ all_out chain src' = all_out chain src.
+Proof.
+  induction src as [|stp rest IH]; simpl; auto.
+  destruct (step_out chain stp) as [|x b] eqn:E.
+  - destruct (fill rest chain) as [src' b']. exact IH.
+  - reflexivity.
+Qed.
+
+Lemma fill_nil chain src : snd (fill src chain) = [] -> all_out chain src = [] /\ fst (fill src chain) = [].
+Proof.
+  induction src as [|stp rest IH]; simpl; auto.
+  destruct (step_out chain stp) as [|x b] eqn:E; simpl; [|discriminate]. exact IH.
+Qed.
+
+(* nothing is lost, duplicated or reordered, items delivered in the same step as an error come
+   before it, and the error is passed through unchanged *)
+Theorem drain_all chain : forall fuel src buf,
+  (length (buf ++ all_out chain src) < fuel)%nat ->
+  drain fuel chain (src, buf) = buf ++ all_out chain src.
+Proof.
+  induction fuel as [|n IH]; intros src buf H; [inversion H|].
+  simpl. destruct buf as [|x b].
+  - pose proof (fill_spec chain src) as Hf. pose proof (fill_nil chain src) as Hn.
+    destruct (fill src chain) as [src' b'] eqn:E. simpl in *.
+    destruct b' as [|y b''].
+    + destruct (Hn eq_refl) as [Hn1 Hn2]. rewrite Hn1. reflexivity.
+    + rewrite <- Hf. simpl. f_equal. apply IH. rewrite <- Hf in H. simpl in H. lia.
+  - simpl. f_equal. apply IH. simpl in H. lia.
+Qed.
 
 (* ---------- insert_all / remove_all counts ---------- *)
 Lemma existsb_In x s : existsb (N.eqb x) s = true <-> In x s.
@@ -133,28 +231,27 @@ Proof.
     + apply IH; auto.
 Qed.
 
-Theorem insert_all_count chain items : forall s c,
+Lemma insert_feed chain items : forall s c,
   NoDup s ->
-  let '(rest, (s', c'), o) := try_for_each _ (map inl items) chain (insert_sink None 0) (s, c) in
-  o = Done /\ rest = [] /\ NoDup s'
+  let '((s', c'), oe) := feed_spec _ chain (insert_sink None 0) items (s, c) in
+  oe = None /\ NoDup s'
   /\ (c' - c = length s' - length s)%nat /\ (c <= c')%nat
   /\ (forall x, In x s' <-> In x s \/ In x (fm chain items)).
 Proof.
   induction items as [|x items IH]; intros s c Hn; simpl.
   - repeat split; auto; try lia. intros [H|[]]; auto.
-  - rewrite wrap_through. unfold fm. simpl.
-    destruct (through chain x) as [y|]; simpl.
+  - unfold fm. simpl. destruct (through chain x) as [y|]; simpl.
     + destruct (existsb (N.eqb y) s) eqn:E.
       * specialize (IH s c Hn).
-        destruct (try_for_each _ (map inl items) chain (insert_sink None 0) (s, c)) as [[rest [s' c']] o].
-        destruct IH as (H1 & H2 & H3 & H4 & H5 & H6). repeat split; auto.
+        destruct (feed_spec _ chain (insert_sink None 0) items (s, c)) as [[s' c'] oe].
+        destruct IH as (H1 & H3 & H4 & H5 & H6). repeat split; auto.
         -- intros H. apply H6 in H. tauto.
         -- intros [H|[H|H]]; apply H6; auto. subst. left. apply existsb_In. exact E.
       * assert (Hn' : NoDup (s ++ [y])).
         { apply NoDup_app_single_N; auto. rewrite <- existsb_In. congruence. }
         specialize (IH (s ++ [y]) (S c) Hn').
-        destruct (try_for_each _ (map inl items) chain (insert_sink None 0) (s ++ [y], S c)) as [[rest [s' c']] o].
-        destruct IH as (H1 & H2 & H3 & H4 & H5 & H6). rewrite app_length in H4. simpl in H4.
+        destruct (feed_spec _ chain (insert_sink None 0) items (s ++ [y], S c)) as [[s' c'] oe].
+        destruct IH as (H1 & H3 & H4 & H5 & H6). rewrite app_length in H4. simpl in H4.
         assert (length s + 1 <= length s')%nat.
         { assert (Hle : (length (s ++ [y]) <= length s')%nat).
           { apply NoDup_incl_length; auto. intros z Hz. apply H6. left. exact Hz. }
@@ -163,4 +260,30 @@ Proof.
         -- intros H0. apply H6 in H0. rewrite in_app_iff in H0. simpl in H0. tauto.
         -- intros H0. apply H6. rewrite in_app_iff. simpl. tauto.
     + apply IH. exact Hn.
+Qed.
+
+Theorem insert_all_count chain steps : forall s c,
+  NoDup s ->
+  let '(rest, (s', c'), o) := try_for_each _ (clean steps) chain (insert_sink None 0) (s, c) in
+  o = Done /\ rest = [] /\ NoDup s'
+  /\ (c' - c = length s' - length s)%nat /\ (c <= c')%nat
+  /\ (forall x, In x s' <-> In x s \/ In x (fm chain (items_of steps))).
+Proof.
+  induction steps as [|b steps IH]; intros s c Hn; simpl.
+  - repeat split; auto; try lia. intros [H|[]]; auto.
+  - rewrite feed_wrap. pose proof (insert_feed chain b s c Hn) as Hb.
+    destruct (feed_spec _ chain (insert_sink None 0) b (s, c)) as [[s1 c1] oe].
+    destruct Hb as (-> & B3 & B4 & B5 & B6).
+    specialize (IH s1 c1 B3).
+    destruct (try_for_each _ (clean steps) chain (insert_sink None 0) (s1, c1)) as [[rest [s' c']] o].
+    destruct IH as (H1 & H2 & H3 & H4 & H5 & H6).
+    assert (length s1 <= length s')%nat.
+    { apply NoDup_incl_length; auto. intros z Hz. apply H6. left. exact Hz. }
+    assert (length s <= length s1)%nat.
+    { apply NoDup_incl_length; auto. intros z Hz. apply B6. left. exact Hz. }
+    repeat split; auto; try lia.
+    + intros H7. apply H6 in H7. unfold items_of. simpl. rewrite fm_app, in_app_iff.
+      destruct H7 as [H7|H7]; [apply B6 in H7|]; tauto.
+    + intros H7. apply H6. unfold items_of in H7. simpl in H7. rewrite fm_app, in_app_iff in H7.
+      destruct H7 as [H7|[H7|H7]]; [left; apply B6; tauto | left; apply B6; tauto | right; exact H7].
 Qed.
